@@ -74,7 +74,7 @@ def handle : List String → String
     let bs := bits.toList.map (· == '1')
     match k?, bs with
     | some k, [a, b, c, d, e, f, g, h, i, j] =>
-      let p := pkPlan k (sup == "1") ⟨a, b, c, d, e, f, g, h, i, j⟩
+      let p := pkPlan k (sup == "1" || sup == "2") ⟨a, b, c, d, e, f, g, h, i, j⟩ (sup == "2")
       let bit := fun (x : Bool) => if x then "1" else "0"
       "ok " ++ bit p.inStatement ++ bit p.bound ++ bit p.prefetch ++ bit p.inlineSql ++ bit p.inReturning ++ bit p.lastrowid
     | _, _ => "bad-op"
